@@ -14,7 +14,7 @@ from hypothesis import strategies as st
 
 from ..common import Result, chash, jsonable, scratch_dir
 from ..hyp import campaign
-from ..lib import READ_APIS, new_table, no_pruning, run_read, setup_append, spy_pruning
+from ..lib import READ_APIS, load, new_table, no_pruning, run_read, setup_append, spy_pruning
 from ..reader import DirFS, Undecoded, read_view, rows_multiset
 from .. import tbl
 
@@ -231,7 +231,24 @@ def rand_case(draw):
     api = draw(st.sampled_from(READ_APIS))
     verify = draw(st.sampled_from([None, False]))
     cols = draw(st.one_of(st.none(), st.lists(st.sampled_from([f["name"] for f in fields] + ["fid"]), min_size=1, max_size=2, unique=True)))
-    return {"kind": "rand", "fields": fields, "files": files, "filter": flt, "api": api, "verify": verify, "columns": cols, "cross": cross, "one_txn": draw(st.integers(0, 2)) == 0 and any(files)}
+    return {"kind": "rand", "fields": fields, "files": files, "filter": flt, "api": api, "verify": verify, "columns": cols, "cross": cross, "one_txn": draw(st.integers(0, 2)) == 0 and any(files),
+            # the handle that is read through: the creating one, a fresh load_table, or create_table() on the existing table with a schema that
+            # DESCRIBES it (same names / types) but numbers its fields differently (another application's copy of the schema) - the persisted
+            # schema stays authoritative, so the answers must not change; 'last_via' = the last file is appended through that handle
+            "handle": draw(st.sampled_from(["same", "same", "load", "renumbered", "renumbered"])), "last_via": draw(st.booleans())}
+
+
+def _other_handle(path, fields, how):
+    from ..common import SetupRejected
+
+    try:
+        if how == "load":
+            return load(path)
+        ids = [f["id"] for f in fields]
+        ren = [dict(f, id=i) for f, i in zip(fields, reversed(ids))]
+        return new_table(path, ren)
+    except Exception as e:  # noqa
+        raise SetupRejected(f"{type(e).__name__}: {e}") from e
 
 
 def check_rand(case):
@@ -254,8 +271,14 @@ def check_rand(case):
                 raise SetupRejected(f"{type(e).__name__}: {e}") from e
             out["labels"].append("files-from-one-transaction")
         else:
+            nf = len(case["files"])
             for fid, rows in enumerate(case["files"]):
+                if fid == nf - 1 and case.get("last_via") and case.get("handle", "same") != "same":
+                    t = _other_handle(d + "/t", fields, case["handle"])
                 setup_append(t, [dict(r, fid=fid) for r in rows])
+        if case.get("handle", "same") != "same":
+            t = _other_handle(d + "/t", fields, case["handle"])
+            out["labels"].append(f"handle:{case['handle']}")
         flt = case["filter"]
         a, b, skipped = _compare(t, flt, case["api"], case["verify"], case["columns"])
         out["nontrivial"] = skipped > 0
